@@ -71,6 +71,7 @@ def main():
     ap.add_argument("--jobs", type=int, default=12)
     ap.add_argument("--out", default="/tmp/mutsweep.json")
     ap.add_argument("--limit", type=int, default=0)
+    ap.add_argument("--benign", action="store_true", help="behaviour-preserving rewrites (mutgen -benign): anything a check reports is a false alarm")
     ap.add_argument("--allprops", action="store_true", help="run every property on every mutant (not only those anchored in the mutated file)")
     ap.add_argument("--from", dest="prev", default="", help="re-run only the survivors of an earlier sweep")
     a = ap.parse_args()
@@ -88,7 +89,7 @@ def main():
         muts = [{k: m[k] for k in ("file", "func", "line", "kind", "off", "end", "old", "new")} for m in json.load(open(a.prev)) if m["status"] == "survived"]
         files = []
     for f in files:
-        r = subprocess.run([MUTGEN, f], cwd=REPO, capture_output=True, text=True)
+        r = subprocess.run([MUTGEN] + (["-benign"] if a.benign else []) + [f], cwd=REPO, capture_output=True, text=True)
         for m in (json.loads(r.stdout) or []):
             muts.append(m)
     if a.limit:
